@@ -26,8 +26,9 @@ Spec == Init /\ [][Next]_vars
 D == Merge(OrderOf, pts)
 Inv_MergeSorted == Sorted(D)
 Inv_PerMarketOrderKeptExactlyOnce == PerStreamOrderKept(D, pts)
-Inv_Count == Len(D) = Len(pts[OrderOf[1]]) + (IF Cardinality(Names) > 1 THEN Len(pts[OrderOf[2]]) ELSE 0)
-                      + (IF Cardinality(Names) > 2 THEN Len(pts[OrderOf[3]]) ELSE 0)
+RECURSIVE TotalLen(_)
+TotalLen(k) == IF k = 0 THEN 0 ELSE Len(pts[OrderOf[k]]) + TotalLen(k - 1)
+Inv_Count == Len(D) = TotalLen(Cardinality(Names))
 F == Filter(lines, L)
 Inv_FilterSubsequence ==
     /\ Len(F) <= Len(lines)
